@@ -75,6 +75,7 @@ def gen_domain(rng, n_int_con=0, n_dbl_con=0, need=(), max_comps=5):
       at_mid = sum(a * b for a, b in zip(w, mid))
       slack = rng.choice([0.5, 1, 1.5, 3])
       cons.append(dict(weights=w, rhs=at_mid - slack, var_type=ty))
+  rng.shuffle(cons)   # int-typed and double-typed constraints in any order (positions in the list index the half-space rows)
   return dict(comps=comps, cons=cons)
 
 
@@ -380,8 +381,9 @@ def gen_case(rng):
 
 def gen_ic_case(rng, kind):
   # integer-constrained domains
-  need = rng.choice([("int", "int"), ("int", "int", "double"), ("int", "int", "int", "categorical"), ("int", "quantized"), ("int", "int", "categorical")])
-  dom = gen_domain(rng, rng.randint(1, 2), rng.choice([0, 0, 1]), need=need, max_comps=4)
+  need = rng.choice([("int", "int"), ("int", "int", "double"), ("int", "int", "int", "categorical"), ("int", "quantized"), ("int", "int", "categorical"),
+                     ("int", "int", "double", "double"), ("int", "double", "categorical")])
+  dom = gen_domain(rng, rng.randint(1, 2), rng.choice([0, 1, 1, 2]), need=need, max_comps=4)
   if not any(k["var_type"] == "int" for k in dom["cons"]):
     return gen_ic_case(rng, kind)
   def pts(n):
